@@ -17,6 +17,8 @@ from __future__ import annotations
 import builtins
 import itertools
 
+import uuid as _uuid_mod
+
 import z3
 
 from .core import PathAbort, Unsupported, ctx
@@ -49,7 +51,7 @@ def lift(x):
     if t is bool:
         x = int(x)
         t = int
-    if t is int or _isinstance(x, int):
+    if t is int or (_isinstance(x, int) and t not in _PROXY_BASE):
         x = int(x)
         if _cbits(x) > W - 1:
             raise Unsupported("constant wider than 127 bits")
@@ -62,6 +64,7 @@ def lift(x):
 
 
 class SymBool:
+    __class__ = property(lambda self: bool)  # C-level isinstance() / `match` class patterns see the represented type
     __slots__ = ("e",)
 
     def __init__(self, e):
@@ -163,7 +166,7 @@ def lift3(x):
     if t is bool:
         x = int(x)
         t = int
-    if t is int or _isinstance(x, int):
+    if t is int or (_isinstance(x, int) and t not in _PROXY_BASE):
         x = int(x)
         if _cbits(x) > W - 1:
             raise Unsupported("constant wider than 127 bits")
@@ -189,6 +192,7 @@ class SymInt:
     implied by the constraints of the leaves it was computed from; it decides most range
     comparisons without the solver and bounds the width (Python ints never wrap: a result
     that may need more than 127 bits aborts the path as Unsupported)."""
+    __class__ = property(lambda self: int)  # C-level isinstance() / `match` class patterns see the represented type
 
     __slots__ = ("e", "lo", "hi", "lin")
 
@@ -614,6 +618,7 @@ def int_from_bytes(items, byteorder="big", signed=False):
 class SymRatio:
     """Exact rational num/den, den a positive Python int.  Stands for a Python float in
     the exact-rational abstraction (assumption A5q); produced only by int/int division."""
+    __class__ = property(lambda self: float)  # C-level isinstance() / `match` class patterns see the represented type
 
     __slots__ = ("num", "den")
     _is_float_proxy = True
@@ -716,6 +721,7 @@ class SymRatio:
 
 class SymFloat:
     """IEEE double given by its bit pattern."""
+    __class__ = property(lambda self: float)  # C-level isinstance() / `match` class patterns see the represented type
 
     __slots__ = ("bv",)
 
@@ -811,6 +817,7 @@ def blob_content_eq(a: Blob, b: Blob):
 
 
 class SymBytes:
+    __class__ = property(lambda self: bytes)  # C-level isinstance() / `match` class patterns see the represented type
     __slots__ = ("items",)
 
     def __init__(self, items=()):
@@ -1003,6 +1010,7 @@ def seq_equal(a, b):
 
 class SymStr:
     """A well-formed str whose UTF-8 encoding is `data`."""
+    __class__ = property(lambda self: str)  # C-level isinstance() / `match` class patterns see the represented type
 
     __slots__ = ("data", "_nchars")
 
@@ -1066,6 +1074,7 @@ class SymStr:
 
 
 class SymUUID:
+    __class__ = property(lambda self: _uuid_mod.UUID)  # C-level isinstance() / `match` class patterns see the represented type
     __slots__ = ("bytes",)
 
     def __init__(self, bytes=None):
@@ -1102,6 +1111,7 @@ class SymUUID:
 
 class SymEnumMember:
     """A member of `enum` whose value is symbolic (constrained to the enum's value set)."""
+    __class__ = property(lambda self: self.enum)  # C-level isinstance() / `match` class patterns see the represented type
 
     __slots__ = ("enum", "value")
 
@@ -1330,3 +1340,8 @@ _MODEL_TO_REAL[id(sym_bytes)] = bytes
 
 _PROXY_BASE.update({SymInt: int, SymBool: bool, SymBytes: bytes, SymStr: str, SymFloat: float, SymRatio: float,
                     SymUUID: _uuid.UUID, SymEnumMember: _enum.Enum})
+
+
+def advertise_classes():
+    """Kept for callers: the proxies declare `__class__` in their class bodies (it cannot be added later)."""
+    return None
